@@ -9,3 +9,5 @@ PAIRS += [_pc.page_abandon_pair()]      # a page with live blocks is unlinked, d
 import seg_common as _sc2
 PAIRS += [_sc2.pairs()[k] for k in ('segment_page_free', 'segment_page_abandon',)]      # last page freed => segment freed; only abandoned pages left => segment abandoned
 PAIRS += [_sc2.pairs()['page_clear']]      # a freed page is wiped (no stale list pointers), its span returned once, the segment counts one page less
+import visit_common as _vc
+PAIRS += _vc.pairs()      # mi_heap_visit_pages reaches every page of every queue, including the full queue
